@@ -144,7 +144,7 @@ def ctl_names(r):
     return set(re.findall(r'<<"CTL", "(\w+)">>', r.out))
 
 
-def run_replay_bin(binname, path, timeout=1500):
+def run_replay_bin(binname, path, timeout=3000):
     """Run a replay binary; a crash or a wedged process of the code under test is data, not a tool error.
     Returns (summary or None, details, rc, stderr tail)."""
     rc, out, err = xlib.run_bin(binname, [path], timeout=timeout, check=False)
@@ -315,9 +315,11 @@ def stress_leg(run, mode, secs):
         sym, detail, r0 = "crash", "process ended with exit status %s: %s" % (rc, err[-400:]), {}
     run.note("stress_" + mode, {k: r0.get(k) for k in ("symptom", "signals_sent", "listener_completions", "rounds")})
     if sym == "none":
-        if r0.get("listener_completions", 0) == 0:
-            raise vlib.ToolError("stress_signal %s: no listener ever completed (nothing was exercised)" % mode)
-        return 1
+        if r0.get("listener_completions", 0) > 0:
+            return 1
+        if r0.get("signals_sent", 0) < 1000:
+            raise vlib.ToolError("stress_signal %s: nothing was exercised (%s)" % (mode, json.dumps(r0)))
+        sym, detail = "no_completion", "%d signals sent, no listener task ever completed" % r0.get("signals_sent", 0)
     if mode == "same":
         sig = {"site": "executor_local_queue", "kind": "handler_on_runtime_thread", "symptom": sym}
         desc = ("signal handler invoked on the runtime's own thread wakes the listener through Local::schedule and "
